@@ -89,6 +89,8 @@ func pairMatrix(owner string, thorough bool) []*engine.SScenario {
 			}
 			sc := linScenario(pairPreludes[pn], [][]string{{a}, {b}}, pairProbes)
 			sc.Name = "pair[" + pn + "] " + a + " || " + b
+			// teardowns are long operations: the quick tier explores these pairs up to one deviation
+			sc.Heavy = owner == "C10"
 			scs = append(scs, sc)
 		}
 	}
